@@ -1317,7 +1317,8 @@ Definition modify_post (s : state) (x : nat) (a : Z) (p0 lenG : nat -> Z) (s1 : 
   exists p, s1 = set_rel s p
     /\ (r = VOk -> ok_all s p (upd lenG x (sz s x + a)))
     /\ (r <> VOk -> ok_all s p lenG)
-    /\ (forall y, p y <> p0 y -> exists L, In x (lay s L) /\ In y (lay s L) /\ forall L', In y (lay s L') -> L' = L).
+    /\ (forall y, p y <> p0 y ->
+          exists L, In y (moved_in (sz s) p0 (lay s L) x a) /\ forall L', In y (lay s L') -> L' = L).
 
 Section Resize.
   Variable s : state.
@@ -1367,7 +1368,7 @@ Section Resize.
   Lemma post_one : forall L0 p,
     In x (lay s L0) -> (forall L, In x (lay s L) -> L = L0) ->
     ok p len' 0 (lsz s L0) (lay s L0) ->
-    (forall y, p y <> p0 y -> In y (lay s L0) /\ forall L, In y (lay s L) -> L = L0) ->
+    (forall y, p y <> p0 y -> In y (moved_in (sz s) p0 (lay s L0) x a) /\ forall L, In y (lay s L) -> L = L0) ->
     modify_post s x a p0 lenG (set_rel s p) VOk.
   Proof.
     intros L0 p H0 Honly Hok Hfr. exists p. split; [reflexivity|]. split; [|split; [intros C; congruence|]].
@@ -1375,7 +1376,7 @@ Section Resize.
       eapply ok_ext; [|apply (Hcur L)]. intros t Ht. split.
       + destruct (Z.eq_dec (p t) (p0 t)) as [E|NE']; [exact E|]. destruct (Hfr t NE') as [_ U]. exfalso. apply NE. apply U. exact Ht.
       + unfold upd. destruct (Nat.eqb_spec t x) as [->|]; [|reflexivity]. exfalso. apply NE. apply Honly. exact Ht.
-    - intros y Hy. destruct (Hfr y Hy) as [Hin Hex]. exists L0. split; [exact H0|split; [exact Hin|exact Hex]].
+    - intros y Hy. destruct (Hfr y Hy) as [Hin Hex]. exists L0. split; [exact Hin|exact Hex].
   Qed.
 
   (* --- message path --- *)
@@ -1405,8 +1406,11 @@ Section Resize.
         symmetry in Ee. apply do_grow_ok_iff in Ee; [|exact Ha].
         replace (set_rel (set_rel s p0) p) with (set_rel s p) by reflexivity.
         apply (post_one (LM m)); [exact Hin|exact Honly|apply (to_len' Hpos (LM m) p Hin); rewrite Ep; apply ok_grow; assumption|].
-        intros y Hy. rewrite Ep in Hy. destruct (in_dec Nat.eq_dec y fs) as [Hyf|Hyn]; [apply Hfs; exact Hyf|].
-        exfalso. apply Hy. apply do_grow_frame. intros fs' E'. assert (fs' = fs) by congruence. subst fs'. exact Hyn.
+        intros y Hy. rewrite Ep in Hy. cbn [lay].
+        destruct (in_dec Nat.eq_dec y (moved_in (sz s) p0 (glay s m) x a)) as [Hyf|Hyn].
+        { split; [exact Hyf|]. apply Hfs. unfold moved_in in Hyf. destruct (a =? 0); [contradiction|]. rewrite Hf in Hyf.
+          destruct (0 <? a); [eapply reached_incl; exact Hyf|exact Hyf]. }
+        exfalso. apply Hy. apply do_grow_frame_moved; [exact Hpos|exact Hyn].
       + assert (Hlt : a < 0) by lia. unfold do_shrink. destruct (Z.eqb_spec (- a) 0); [lia|].
         assert (Ev : verify_shrink (sz s) x (- a) = None).
         { unfold verify_shrink. destruct (Z.ltb_spec (- a) 0); [lia|].
@@ -1416,8 +1420,11 @@ Section Resize.
           with (set_rel s (shrink_loop p0 (glay s m) x (- a) false)) by reflexivity.
         apply (post_one (LM m)); [exact Hin|exact Honly| |].
         * apply (shrink_len' Hlt (glay s m) 0 (glsize s m) p0 (Hcur (LM m)) Hin).
-        * intros y Hy. destruct (in_dec Nat.eq_dec y fs) as [Hyf|Hyn]; [apply Hfs; exact Hyf|].
-          exfalso. apply Hy. apply shrink_loop_false_frame. intros fs' E'. assert (fs' = fs) by congruence. subst fs'. exact Hyn.
+        * intros y Hy. cbn [lay].
+          destruct (in_dec Nat.eq_dec y (moved_in (sz s) p0 (glay s m) x a)) as [Hyf|Hyn].
+          { split; [exact Hyf|]. apply Hfs. unfold moved_in in Hyf. destruct (a =? 0); [contradiction|]. rewrite Hf in Hyf.
+            destruct (0 <? a); [eapply reached_incl; exact Hyf|exact Hyf]. }
+          exfalso. apply Hy. apply (shrink_frame_moved p0 (sz s)); [exact Hlt|exact Hyn].
     - (* x is not placed in the message: nothing moves *)
       assert (Hfree : ~ attached s x).
       { intros [L HL]. pose proof (Honly L HL). subst L. contradiction. }
@@ -1600,11 +1607,10 @@ Section Resize.
   Qed.
 
   Lemma mixed_movers : forall p done y, Mixed p done -> p y <> p0 y ->
-    exists L, In x (lay s L) /\ In y (lay s L) /\ forall L', In y (lay s L') -> L' = L.
+    exists L, In y (moved_in (sz s) p0 (lay s L) x a) /\ forall L', In y (lay s L') -> L' = L.
   Proof.
     intros p done y (_ & _ & M3) Hy. destruct (M3 y Hy) as [g [_ Hm]].
-    destruct (moved_in_In _ _ _ _ _ _ Hm) as [Hx Hyg]. exists (LG u g). split; [exact Hx|split; [exact Hyg|]].
-    intros L' HL'. apply (mover_only g y Hm L' HL').
+    exists (LG u g). split; [exact Hm|]. intros L' HL'. apply (mover_only g y Hm L' HL').
   Qed.
 End Resize.
 
@@ -2015,9 +2021,9 @@ Proof. intros. unfold memb. apply existsb_app. Qed.
 
 (* positions that differ from those of the state belong to signals held by one layout only, and
    that layout holds one of the signals of D *)
-Definition moved_with (s : state) (p : nat -> Z) (D : list nat) : Prop :=
+Definition moved_with (s : state) (p : nat -> Z) (D : list nat) (a : Z) : Prop :=
   forall y, p y <> rel s y ->
-    exists d L, In d D /\ In d (lay s L) /\ In y (lay s L) /\ forall L', In y (lay s L') -> L' = L.
+    exists d L, In d D /\ In y (moved_in (sz s) (rel s) (lay s L) d a) /\ forall L', In y (lay s L') -> L' = L.
 
 Lemma refs_loop : forall s a old n', InvA s -> a <> 0 -> n' = old + a -> 1 <= n' ->
   forall R D p,
@@ -2025,12 +2031,12 @@ Lemma refs_loop : forall s a old n', InvA s -> a <> 0 -> n' = old + a -> 1 <= n'
   ok_all s p (bump s D n') ->
   NoDup (D ++ R) -> (0 < a -> unshared s (D ++ R)) ->
   (forall x, In x R -> resize_ok s x a) ->
-  moved_with s p D ->
+  moved_with s p D a ->
   exists p', fst (refs_modify (set_rel s p) R a) = set_rel s p'
     /\ (snd (refs_modify (set_rel s p) R a) = VOk -> ok_all s p' (bump s (D ++ R) n'))
     /\ (snd (refs_modify (set_rel s p) R a) <> VOk ->
         0 < a /\ exists D', (forall y, In y D' -> In y (D ++ R)) /\ ok_all s p' (bump s D' n'))
-    /\ moved_with s p' (D ++ R)
+    /\ moved_with s p' (D ++ R) a
     /\ (snd (refs_modify (set_rel s p) R a) = VOk <-> forall r, In r R -> change_fits s (rel s) r a).
 Proof.
   intros s a old n' H Ha En Hn'. induction R as [|r R' IH]; intros D p Hsz Hcur Hnd Hun Hres Hmw.
@@ -2050,7 +2056,8 @@ Proof.
     (* growth: the layouts holding r still have the positions of the state *)
     assert (Hsame : 0 < a -> forall L t, In r (lay s L) -> In t (lay s L) -> p t = rel s t).
     { intros Hpos L t HL Ht. destruct (Z.eq_dec (p t) (rel s t)) as [E|NE]; [exact E|]. exfalso.
-      destruct (Hmw t NE) as (d & L' & Hd & HdL & HtL & Hex). pose proof (Hex L Ht) as EL. subst L'.
+      destruct (Hmw t NE) as (d & L' & Hd & Hmv & Hex). pose proof (Hex L Ht) as EL. subst L'.
+      destruct (moved_in_In _ _ _ _ _ _ Hmv) as [HdL HtL].
       assert (d = r).
       { apply (Hun Hpos L d r); [apply in_or_app; left; exact Hd|apply in_or_app; right; left; reflexivity|exact HdL|exact HL]. }
       subst d. contradiction. }
@@ -2069,13 +2076,20 @@ Proof.
     destruct (sig_modify_post s r a p (bump s D n') H Hcur HlenR Hagree Hnew Hlink Hsm') as [A B].
     destruct (sig_modify_size (set_rel s p) r a) as [s1 e]. cbn [fst snd] in A, B, Hacc.
     destruct A as [p1 [-> [Aok [Aerr Amv]]]].
-    assert (Hmw1 : moved_with s p1 (D ++ [r])).
+    assert (Hmw1 : moved_with s p1 (D ++ [r]) a).
     { intros y Hy. destruct (Z.eq_dec (p1 y) (p y)) as [E|NE].
-      - rewrite E in Hy. destruct (Hmw y Hy) as (d & L & Hd & R1 & R2 & R3). exists d, L.
-        split; [apply in_or_app; left; exact Hd|split; [exact R1|split; [exact R2|exact R3]]].
-      - destruct (Amv y NE) as (L & R1 & R2 & R3). exists r, L.
-        split; [apply in_or_app; right; left; reflexivity|split; [exact R1|split; [exact R2|exact R3]]]. }
-    assert (Hmw1' : moved_with s p1 (D ++ r :: R')).
+      - rewrite E in Hy. destruct (Hmw y Hy) as (d & L & Hd & R1 & R2). exists d, L.
+        split; [apply in_or_app; left; exact Hd|split; [exact R1|exact R2]].
+      - destruct (Amv y NE) as (L & R1 & R2). exists r, L.
+        split; [apply in_or_app; right; left; reflexivity|split; [|exact R2]].
+        (* the moved set read on the positions of the state *)
+        destruct (moved_in_In _ _ _ _ _ _ R1) as [HrL _].
+        destruct (Z.ltb_spec 0 a) as [Hpos|Hneg].
+        + rewrite <- (moved_in_ext (sz s) (sz s) (rel s) p (lay s L) r a); [exact R1|].
+          intros t Ht. split; [apply (Hsame Hpos L t HrL Ht)|reflexivity].
+        + unfold moved_in in *. destruct (a =? 0); [exact R1|]. destruct (followers (lay s L) r); [|exact R1].
+          destruct (Z.ltb_spec 0 a); [lia|exact R1]. }
+    assert (Hmw1' : moved_with s p1 (D ++ r :: R') a).
     { intros y Hy. destruct (Hmw1 y Hy) as (d & L & Hd & Rest). exists d, L. split; [|exact Rest].
       apply in_app_or in Hd. apply in_or_app. destruct Hd as [Hd|[<-|[]]]; [left; exact Hd|right; left; reflexivity]. }
     assert (Hnofit : e <> VOk -> ~ (forall r0, In r0 (r :: R') -> change_fits s (rel s) r0 a)).
@@ -2120,7 +2134,7 @@ Lemma enum_modify_post : forall s e a, InvA s -> 1 <= esize s e + a -> enum_resi
   exists p, fst (enum_modify_size s e a) = set_rel s p
     /\ (snd (enum_modify_size s e a) = VOk -> ok_all s p (bump s (erefs s e) (esize s e + a)))
     /\ (snd (enum_modify_size s e a) <> VOk -> ok_all s p (sz s))
-    /\ moved_with s p (erefs s e)
+    /\ moved_with s p (erefs s e) a
     /\ (snd (enum_modify_size s e a) = VOk <-> forall r, In r (erefs s e) -> change_fits s (rel s) r a).
 Proof.
   intros s e a H Hnew [Hres Hun]. unfold enum_modify_size.
